@@ -256,6 +256,22 @@ Proof.
   destruct s as [|c r]; [cbn; lia|]. unfold slen in *. cbn [String.length]. specialize (IH r). lia.
 Qed.
 
+(* ToValidUTF8 only drops bytes *)
+Lemma slen_to_valid_utf8_aux k s : slen (to_valid_utf8_aux k s) <= slen s.
+Proof.
+  revert k. induction s as [|c r IH]; intros k; cbn [to_valid_utf8_aux]; [lia|].
+  unfold slen in *. destruct k as [|k].
+  - destruct (lead_info (byte_of c)) as [[[n lo] hi]|]; [destruct (conts_ok n lo hi r)|]; cbn [String.length];
+      first [specialize (IH n); lia | specialize (IH 0); lia].
+  - cbn [String.length]. specialize (IH k). lia.
+Qed.
+Lemma slen_cap_user u : slen (cap_user u) <= max_user_len.
+Proof.
+  unfold cap_user. destruct (Nat.ltb max_user_len (slen u)) eqn:E.
+  - unfold to_valid_utf8. pose proof (slen_to_valid_utf8_aux 0 (stake max_user_len u)). pose proof (slen_stake max_user_len u). lia.
+  - apply PeanoNat.Nat.ltb_ge in E. exact E.
+Qed.
+
 Definition short (o : omsg) : Prop := slen (o_data o) <= max_length.   (* max_length = 510 *)
 Definition rendered (o : omsg) : Prop := exists m, o_data o = msg_bytes m.
 
